@@ -23,17 +23,16 @@ package container
 // is never added (it is cancelled with an error message instead): the
 // scheduler must not see it with a made-up (zero) instance type.  An added
 // entry carries the chosen type.
-//@ func Queue.addEnt property C14,C16
-//@   requires cq.current != nil
+//@ func Queue.addEnt property C14,C16 safety -nil
 //@   modifies map[string]QueueEnt
 //@   ghost cerr error = nil
 //@   ghost cit arvados.InstanceType = nil
 //@   calls cq.chooseType#1: pure
 //@   calls cq.chooseType#1: set cerr = $r1
 //@   calls cq.chooseType#1: set cit = $r0
-//@   ensures forall u string :: u != uuid ==> has(cq.current, u) == old(has(cq.current, u)) && cq.current[u] == old(cq.current[u])
-//@   ensures cerr != nil && (ctr.State == arvados.ContainerStateQueued || ctr.State == arvados.ContainerStateLocked) ==> has(cq.current, uuid) == old(has(cq.current, uuid)) && cq.current[uuid] == old(cq.current[uuid])
-//@   ensures !(cerr != nil && (ctr.State == arvados.ContainerStateQueued || ctr.State == arvados.ContainerStateLocked)) ==> has(cq.current, uuid) && cq.current[uuid].InstanceType == cit && cq.current[uuid].Container == ctr
+//@   ensures forall u string :: u != uuid ==> dom(cq.current)[u] == old(dom(cq.current)[u]) && cq.current[u] == old(cq.current[u])
+//@   ensures cerr != nil && (ctr.State == arvados.ContainerStateQueued || ctr.State == arvados.ContainerStateLocked) ==> dom(cq.current)[uuid] == old(dom(cq.current)[uuid]) && cq.current[uuid] == old(cq.current[uuid])
+//@   ensures cq.current != nil && !(cerr != nil && (ctr.State == arvados.ContainerStateQueued || ctr.State == arvados.ContainerStateLocked)) ==> dom(cq.current)[uuid] && cq.current[uuid].InstanceType == cit && cq.current[uuid].Container == ctr
 //@ func Queue.notify trusted
 //@   modifies nothing
 // poll talks to the API server without holding the lock: anything may happen
